@@ -52,6 +52,7 @@ type instr struct {
 	sorted   int
 	info     *types.Info // type information of the package being instrumented (nil: fall back to names)
 	loopID   int
+	wrapped  int // calls nested inside an expression that got a yield after them
 }
 
 // Known map types from other packages, by their unqualified name.
@@ -161,6 +162,7 @@ func (in *instr) list(l []ast.Stmt) []ast.Stmt {
 		if r, ok := s.(*ast.RangeStmt); ok && in.info != nil && in.rangesOverMap(r.X) && (r.Key != nil || r.Value != nil) {
 			s = in.sortedRange(r)
 		}
+		in.wrapStmt(s)
 		in.stmt(s)
 		out = append(out, in.call(), s)
 	}
@@ -263,6 +265,150 @@ func (in *instr) stmt(s ast.Stmt) {
 	})
 }
 
+// Expression-level yields. A statement such as
+//
+//	if head.CompareAndSwap(old, old.next.Load()) { ... }
+//
+// reads and publishes in one go as far as statement-level yields are concerned; the window
+// between the two calls is real all the same. Every call that is nested inside another
+// expression (an argument, an operand, a receiver) is wrapped as simY(call): the call is
+// evaluated, then the task may be pre-empted, then the enclosing operation goes on. Needs type
+// information (conversions, builtins, constant and multi-valued calls are left alone).
+func (in *instr) wrappable(c *ast.CallExpr) bool {
+	if in.info == nil {
+		return false
+	}
+	if id, ok := c.Fun.(*ast.Ident); ok && (id.Name == "simY" || id.Name == "simYield" || id.Name == "simSortedKeys") {
+		return false
+	}
+	ftv, ok := in.info.Types[c.Fun]
+	if !ok || ftv.IsType() || ftv.IsBuiltin() {
+		return false
+	}
+	tv, ok := in.info.Types[c]
+	if !ok || tv.Type == nil || tv.IsVoid() || tv.Value != nil {
+		return false
+	}
+	if _, tuple := tv.Type.(*types.Tuple); tuple {
+		return false
+	}
+	if b, ok := tv.Type.(*types.Basic); ok && b.Info()&types.IsUntyped != 0 {
+		return false
+	}
+	return true
+}
+
+func (in *instr) isTypeExpr(e ast.Expr) bool {
+	if in.info == nil {
+		return true
+	}
+	tv, ok := in.info.Types[e]
+	return ok && tv.IsType()
+}
+
+// expr rewrites the calls nested in e; nested says whether e itself sits inside another expression.
+func (in *instr) expr(e ast.Expr, nested bool) ast.Expr {
+	switch x := e.(type) {
+	case nil:
+		return nil
+	case *ast.CallExpr:
+		if !in.isTypeExpr(x.Fun) {
+			x.Fun = in.expr(x.Fun, true)
+		}
+		for i, a := range x.Args {
+			if !in.isTypeExpr(a) {
+				x.Args[i] = in.expr(a, true)
+			}
+		}
+		if nested && in.wrappable(x) {
+			in.wrapped++
+			return &ast.CallExpr{Fun: ast.NewIdent("simY"), Args: []ast.Expr{x}}
+		}
+	case *ast.BinaryExpr:
+		x.X, x.Y = in.expr(x.X, true), in.expr(x.Y, true)
+	case *ast.UnaryExpr:
+		if x.Op != token.AND {
+			x.X = in.expr(x.X, true)
+		}
+	case *ast.ParenExpr:
+		x.X = in.expr(x.X, nested)
+	case *ast.SelectorExpr:
+		if !in.isTypeExpr(x.X) {
+			x.X = in.expr(x.X, true)
+		}
+	case *ast.IndexExpr:
+		if !in.isTypeExpr(x) && !in.isTypeExpr(x.Index) {
+			x.X, x.Index = in.expr(x.X, true), in.expr(x.Index, true)
+		}
+	case *ast.SliceExpr:
+		x.X, x.Low, x.High, x.Max = in.expr(x.X, true), in.expr(x.Low, true), in.expr(x.High, true), in.expr(x.Max, true)
+	case *ast.StarExpr:
+		if !in.isTypeExpr(x) {
+			x.X = in.expr(x.X, true)
+		}
+	case *ast.TypeAssertExpr:
+		x.X = in.expr(x.X, true)
+	case *ast.KeyValueExpr:
+		x.Value = in.expr(x.Value, true)
+	case *ast.CompositeLit:
+		for i, el := range x.Elts {
+			x.Elts[i] = in.expr(el, true)
+		}
+	}
+	return e
+}
+
+func (in *instr) exprs(l []ast.Expr) {
+	for i, e := range l {
+		l[i] = in.expr(e, false)
+	}
+}
+
+// wrapStmt applies expr to the expressions a statement evaluates itself (not to the statements
+// nested in it, which get their turn when their own block is instrumented).
+func (in *instr) wrapStmt(s ast.Stmt) {
+	if in.info == nil || s == nil {
+		return
+	}
+	switch x := s.(type) {
+	case *ast.ExprStmt:
+		x.X = in.expr(x.X, false)
+	case *ast.AssignStmt:
+		in.exprs(x.Rhs)
+		for i, l := range x.Lhs {
+			if _, isIdent := l.(*ast.Ident); !isIdent {
+				x.Lhs[i] = in.expr(l, false)
+			}
+		}
+	case *ast.ReturnStmt:
+		in.exprs(x.Results)
+	case *ast.IfStmt:
+		in.wrapStmt(x.Init)
+		x.Cond = in.expr(x.Cond, false)
+	case *ast.ForStmt:
+		in.wrapStmt(x.Init)
+		x.Cond = in.expr(x.Cond, false)
+		in.wrapStmt(x.Post)
+	case *ast.RangeStmt:
+		x.X = in.expr(x.X, false)
+	case *ast.SwitchStmt:
+		in.wrapStmt(x.Init)
+		x.Tag = in.expr(x.Tag, false)
+	case *ast.TypeSwitchStmt:
+		in.wrapStmt(x.Init)
+	case *ast.SendStmt:
+		x.Chan, x.Value = in.expr(x.Chan, false), in.expr(x.Value, false)
+	case *ast.IncDecStmt:
+		x.X = in.expr(x.X, false)
+	case *ast.GoStmt:
+		in.expr(x.Call, false)
+	case *ast.DeferStmt:
+		in.expr(x.Call, false)
+	case *ast.LabeledStmt:
+		in.wrapStmt(x.Stmt)
+	}
+}
+
 func main() {
 	if len(os.Args) != 3 {
 		fmt.Fprintln(os.Stderr, "usage: autoyield <repo> <outdir>")
@@ -322,6 +468,7 @@ func main() {
 			fmt.Fprintf(os.Stderr, "autoyield: %s does not type-check (%v): map ranges are left alone by name\n", p, err)
 		}
 		sortedBefore := in.sorted
+		wrappedBefore := in.wrapped
 		for fi, f := range files {
 			n := names[fi]
 			if strings.HasPrefix(n, "simhook_") {
@@ -365,6 +512,13 @@ func main() {
 			overlay[src] = dst
 			sites += in.next - before
 		}
+		if in.wrapped > wrappedBefore {
+			pkgName := files[0].Name.Name
+			helper := filepath.Join(out, p, "simexpr_auto.go")
+			os.MkdirAll(filepath.Dir(helper), 0o755)
+			os.WriteFile(helper, []byte("package "+pkgName+"\n\n// simY yields after the evaluation of a nested call (instrumented builds only).\nfunc simY[T any](v T) T {\n\tsimYield(99)\n\treturn v\n}\n"), 0o644)
+			overlay[filepath.Join(dir, "simexpr_auto.go")] = helper
+		}
 		if in.sorted > sortedBefore {
 			pkgName := files[0].Name.Name
 			helper := filepath.Join(out, p, "simsort_auto.go")
@@ -399,5 +553,5 @@ func main() {
 	}
 	b, _ := json.MarshalIndent(map[string]any{"Replace": overlay}, "", " ")
 	os.WriteFile(filepath.Join(out, "overlay.json"), b, 0o644)
-	fmt.Printf("autoyield: %d yield sites in %d files (%d map-range loops iterate in sorted order, %d left alone)\n", sites, len(overlay)-2, in.sorted, in.skipped)
+	fmt.Printf("autoyield: %d statement yield sites and %d expression yields (after nested calls) in %d files (%d map-range loops iterate in sorted order, %d left alone)\n", sites, in.wrapped, len(overlay)-2, in.sorted, in.skipped)
 }
